@@ -4,7 +4,7 @@ import ast
 from ..loader import AnalysisError, attr_path, src, walk_no_nested_defs, norm_stmt, call_name
 from ..symx import SymX, classify, show, C, TRUE, FALSE, simp, is_const, mk_mul, UNBOUND
 from ..nf import SELF_NEXT, SF
-from . import kernels as K
+from . import kernels as K, shared
 from . import C02, C03, C04
 
 EXPLANATION = (
@@ -185,7 +185,7 @@ def r2_precision(ctx, chk, rule="C14.2"):
 def r3_seeding(ctx, chk, rule="C14.3"):
     f = ctx.func("tad.py::Solver.value_iteration_reachability")
     sx = SymX(ctx, f, "Solver", inline_depth=0).run()
-    slist = ("attr", ("v", "self"), "state_list")
+    slist = shared.SLIST(ctx)
     cfg = ctx.cfg(f)
     found = False
     whiles = [l for l in sx.loops.values() if l.kind == "while"]
